@@ -18,6 +18,7 @@
 //!   merge                             run a merge pass (verif hook)
 //!   alive                             is the server task still running?
 //!   sleep <ms>
+//!   api <id> connect | set k v | get k | del k ...     the crate's own `net::Client` against this server
 //!   END
 use std::{
     collections::HashMap,
@@ -129,6 +130,7 @@ async fn run_case(c: &CaseCfg, maxconn: usize, ops: &[String], out: &mut dyn Wri
     };
     let mut conns: HashMap<String, TcpStream> = HashMap::new();
     let mut socks: HashMap<String, tokio::net::TcpSocket> = HashMap::new();
+    let mut apis: HashMap<String, bitcask::net::Client> = HashMap::new();
     for line in ops {
         let mut it = line.split_whitespace();
         let cmd = it.next().unwrap_or("");
@@ -215,6 +217,28 @@ async fn run_case(c: &CaseCfg, maxconn: usize, ops: &[String], out: &mut dyn Wri
                         format!("{}:{}:{}", st, got.len(), hex(&got))
                     }
                     None => "noconn".into(),
+                }
+            }
+            "api" => {
+                let id = it.next().unwrap().to_string();
+                let words: Vec<&str> = it.collect();
+                if words.first() == Some(&"connect") {
+                    match timeout(Duration::from_millis(2000), bitcask::net::Client::connect(("127.0.0.1", srv.port))).await {
+                        Ok(Ok(c)) => {
+                            apis.insert(id, c);
+                            "ok".into()
+                        }
+                        Ok(Err(e)) => format!("err:{}", e),
+                        Err(_) => "timeout".into(),
+                    }
+                } else {
+                    match apis.get_mut(&id) {
+                        Some(c) => match timeout(Duration::from_millis(8000), crate::client::api_call(c, &words)).await {
+                            Ok((r, _)) => r,
+                            Err(_) => "hang".into(),
+                        },
+                        None => "noconn".into(),
+                    }
                 }
             }
             "half" => match conns.get_mut(it.next().unwrap()) {
@@ -559,6 +583,7 @@ async fn run_case(c: &CaseCfg, maxconn: usize, ops: &[String], out: &mut dyn Wri
         writeln!(out, "{}", res).unwrap();
     }
     conns.clear();
+    apis.clear();
     if let Some(tx) = srv.shutdown_tx.take() {
         let _ = tx.send(());
     }
